@@ -281,6 +281,42 @@ theorem stack_roundtrip (q : PPPoE) (l : PPP) (p : Bytes) (b : SBuf) (fix1 csum1
   · simp only [c2]; exact hm
   · exact ⟨⟨rfl, rfl, rfl, rfl, rfl⟩, by rw [hfix], rfl, ⟨rfl, rfl⟩, rfl⟩
 
+/-- The hypotheses of `stack_roundtrip` are satisfiable (a PPPoE session frame carrying IPv4 over PPP). -/
+example :
+    wfPPPoE { PPPoE.fresh with version := 1, type := 1, sessionId := 0x11 } ∧
+    ({ PPPoE.fresh with version := 1, type := 1, sessionId := 0x11 } : PPPoE).code = pppoeCodeSession ∧
+    wfPPP { PPP.fresh with pppType := pppTypeIPv4 } := by decide
+
+/-- MPLS label stacks of ANY depth: the entries `ls` (outermost first; every entry but the last with
+    the S bit clear) written innermost-first over a payload, as SerializeLayers does, decode — in a
+    packet buffer of any capacity — to exactly those entries in order, every field intact, each
+    entry's Payload being everything behind it (`mplsDecoded`), followed by whatever the guessing
+    decoder makes of the payload.  The decode recursion re-enters `decodeMPLS` once per entry. -/
+theorem mpls_stack_roundtrip (ls : List MPLS) (b : SBuf) (foreign : Bytes) (lazy : Bool)
+    (hne : ls ≠ []) (hw : ∀ l ∈ ls, wfMPLS l) (hs : ∀ l ∈ ls.dropLast, l.stackBottom = false) (hb : Inv b) :
+    contents (mplsSerStack ls b) = mplsFrame ls (contents b) ∧
+    ∃ r more, newPacket lazy .mpls { vis := contents (mplsSerStack ls b), tail := foreign } = .ok r ∧
+      r.layers = mplsDecoded ls (contents b) ++ more := by
+  obtain ⟨c, -⟩ := mplsSerStack_contents ls b hb
+  have hlen := mplsFrame_length ls (contents b)
+  have hpos : 0 < ls.length := by
+    cases ls with
+    | nil => exact absurd rfl hne
+    | cons _ _ => simp
+  obtain ⟨more, hm⟩ := mpls_stack_run ls (contents b) { layers := [], acts := [], end_ := .done }
+    ((mplsFrame ls (contents b)).length + 1) hne hw hs (by omega)
+  refine ⟨c, _, more, newPacket_eq lazy .mpls _, ?_⟩
+  simp only [c]
+  unfold newPacketS
+  rw [if_neg (by omega), hm, List.nil_append]
+
+/-- A three-entry stack inside the claim. -/
+example :
+    let ls : List MPLS := [{ MPLS.fresh with label := 18, ttl := 255 }, { MPLS.fresh with label := 17, trafficClass := 3, ttl := 9 },
+                           { MPLS.fresh with label := 16, stackBottom := true, ttl := 255 }]
+    (∀ l ∈ ls, wfMPLS l) ∧ (∀ l ∈ ls.dropLast, l.stackBottom = false) ∧
+    mplsFrame ls [0x45] = [0x00,0x01,0x20,0xff, 0x00,0x01,0x16,0x09, 0x00,0x01,0x01,0xff, 0x45] := by decide
+
 /-! ## Non-vacuity: concrete well-formed layers inside the claims -/
 
 example : wfPPP { PPP.fresh with pppType := 0x0021, hasPPTPHeader := true } ∧
